@@ -178,6 +178,29 @@ CLAIMS["C16"] = (
     "not decided.",
 )
 
+CLAIMS["C17"] = (
+    "4/C17",
+    "type-level fact (Decoder impl overrides decode_eof) + guarded-site + dominance of permit acquisition + probe outcome table",
+    "Decides: which Decoder impls are framing-aware and whether each has an end-of-input rule (the client codec has "
+    "none: known finding, confirmed; its repair is blocked by an existing test); the connection is released only on "
+    "the codec's end-of-body item or for a bodiless response or before use; the idle probe is Live only on a Pending "
+    "read and Tainted on any byte, pooled HTTP/1 connections are selected only on Live and Tainted ones are closed; the "
+    "semaphore permit is obtained before the idle lookup and before connecting and travels inside Acquired; idle pooled "
+    "connections hold no permit (known finding: open connections exceed the limit, confirmed). Keep-alive timing is "
+    "not decided.",
+)
+CLAIMS["C18"] = (
+    "4/C18",
+    "field effect sets on the map representation, must-pass-through for per-element counters, constructor census, provenance of the carried name",
+    "Decides representation invariants, not the refinement to a reference multimap: value lists are created non-empty "
+    "and the only mutations are push / retain(with empty entries dropped) / front removal, so they are never empty and "
+    "never reordered (also for lists moved out by drain/into_iter); nothing outside the module mutates the map; every "
+    "iterator element is counted exactly once, size_hint reports the counter, iterators are built with len() evaluated "
+    "before consumption, len() sums list lengths; string keys go through HeaderName::from_str and lookups through "
+    "try_as_name; conversion from http::HeaderMap appends under, and carries forward, the same name with fallback to "
+    "the previous one.",
+)
+
 NOT_YET = "check not built yet in this round (planned per DESIGN.md section 4); not claimed until it exists"
 
 NOT_APPLICABLE = {}
